@@ -100,6 +100,9 @@ func c08Gen(rng *verifsim.RNG, idx int, tier string) *Plan {
 		p.Actions = append(p.Actions, Action{At: stop + int64(rng.Dur(0, time.Second)), Kind: "signal", Sig: []string{"SIGTERM", "SIGHUP"}[rng.Intn(2)]})
 	}
 	p.Horizon = stop + 4*nsSec
+	if rng.Bool(0.25) {
+		secondInterface(rng, p)
+	}
 	return p
 }
 
@@ -156,6 +159,16 @@ func c08Oracle(info *runInfo, res *verifsim.Result) {
 		return
 	}
 	term := sig != "SIGHUP"
+	// If some task had already failed before the signal, the server was being
+	// torn down because of that failure (every task cancelled, no signal recorded):
+	// not an advertiser being asked to stop by a signal.
+	for i := range h.ev {
+		e := &h.ev[i]
+		if e.K == "task.exit" && e.Err != "" && e.Seq < stopSeq {
+			res.Probe("server_failing_before_stop")
+			return
+		}
+	}
 	for _, is := range info.plan.Nodes[0].Config.Interfaces {
 		if !is.Advertise {
 			continue
